@@ -100,6 +100,9 @@ type syncPool struct {
 	// isValidatedDataHash indicates if datahash was validated by receiving corresponding extended
 	// header from headerSub
 	isValidatedDataHash atomic.Bool
+	// validation guards the promotion of collected peers to discovered nodes: concurrent callers of
+	// validatedPool wait until the first one has finished it
+	validation sync.Once
 	// height is the height of the header that corresponds to datahash
 	height uint64
 	// createdAt is the syncPool creation time
@@ -466,7 +469,10 @@ func (m *Manager) isBlacklistedHash(hash share.DataHash) bool {
 
 func (m *Manager) validatedPool(hashStr string, height uint64) *syncPool {
 	p := m.getOrCreatePool(hashStr, height)
-	if p.isValidatedDataHash.CompareAndSwap(false, true) {
+	// Callers that lose the race for the first validation must not use the pool before the
+	// collected peers are in discovered nodes: Peer drops peers that are missing there.
+	p.validation.Do(func() {
+		p.isValidatedDataHash.Store(true)
 		log.Debugw("pool marked validated", "datahash", hashStr)
 		// if pool is proven to be valid, add all collected peers to discovered nodes, except
 		// those that were blacklisted after they had announced the datahash
@@ -476,7 +482,7 @@ func (m *Manager) validatedPool(hashStr string, height uint64) *syncPool {
 			}
 			m.nodes.add(peerID)
 		}
-	}
+	})
 	return p
 }
 
